@@ -75,8 +75,13 @@ func (f *WithZipReader) Call(s *slip.Scope, args slip.List, depth int) (result s
 	}
 	s2 := s.NewScope()
 	s2.Let(sym, slip.NewInputStream(z))
+forms:
 	for i := range forms {
 		result = slip.EvalArg(s2, forms, i, d2)
+		switch result.(type) {
+		case *slip.ReturnResult, *slip.GoTo:
+			break forms
+		}
 	}
 	_ = z.Close()
 
